@@ -2,6 +2,7 @@ package props
 
 import (
 	"fmt"
+	"go/constant"
 	"go/token"
 	"go/types"
 	"sort"
@@ -46,6 +47,7 @@ func runC06(p *core.Prog, r *core.Report) {
 		res := resolvers()
 		valueUse, keyUse = map[*types.Var]bool{}, map[*types.Var]bool{}
 		calls := map[string]bool{}
+		callObjs := map[*types.Func]bool{}
 		nWrites := 0
 		var bufAlloc ssa.Value
 		// the functions that write into the hashed buffer: hashModule and the helpers of its family that receive the buffer
@@ -108,6 +110,7 @@ func runC06(p *core.Prog, r *core.Report) {
 				}
 				for cc := range s.Calls {
 					calls[core.ObjName(cc)] = true
+					callObjs[cc] = true
 				}
 			})
 		}
@@ -116,7 +119,13 @@ func runC06(p *core.Prog, r *core.Report) {
 		}
 		_ = bufAlloc
 		// implicit flows: type switches in hashModule and in the static callees whose results are written
-		for _, f := range append(append([]*ssa.Function{}, writers...), p.Func(pkgMani, "inputName"), p.Func(pkgMani, "inputValue")) {
+		helpers := c06InputHelpers(p, callObjs)
+		for cc := range callObjs {
+			if h := c06TransparentCarrier(p, cc, 2); h != nil {
+				helpers = append(helpers, h)
+			}
+		}
+		for _, f := range append(append([]*ssa.Function{}, writers...), helpers...) {
 			core.Instrs(f, func(in ssa.Instruction) {
 				if ta, ok := in.(*ssa.TypeAssert); ok {
 					for fl := range core.Trace(ta.X, 1).Fields {
@@ -133,15 +142,22 @@ func runC06(p *core.Prog, r *core.Report) {
 			carriers[n] = true
 		}
 		var foreign []string
-		for n := range calls {
-			if !carriers[n] && !strings.Contains(n, ".Get") {
-				foreign = append(foreign, n)
+		for cc := range callObjs {
+			n := core.ObjName(cc)
+			if carriers[n] || strings.Contains(n, ".Get") {
+				continue
 			}
+			// a helper of the package that only selects among its parameter's fields and distinct constants (a type switch
+			// returning a tag, the fused per-input helper) carries values as they are
+			if c06TransparentCarrier(p, cc, 2) != nil {
+				continue
+			}
+			foreign = append(foreign, n)
 		}
 		sort.Strings(foreign)
 		r.Check(len(foreign) == 0, "C06.R1", "hashModule/raw-values", "hashed field values reach the buffer unmodified (only getters, the input helpers, the recursive hash, the filter query string and byte/string conversions lie between a field and the buffer)", fmt.Sprintf("values pass through %v before being hashed", foreign), p.Pos(fn.Pos()))
 		// inputName / inputValue results must be written
-		r.Check(calls["manifest.inputName"] && calls["manifest.inputValue"], "C06.R1", "hashModule/inputs-written", "for every input its kind tag and its value are written into the hash", fmt.Sprintf("written call results: %v", keysOf(calls)), p.Pos(fn.Pos()))
+		r.Check(len(c06InputHelpers(p, callObjs)) > 0, "C06.R1", "hashModule/inputs-written", "for every input its kind tag and its value are written into the hash", fmt.Sprintf("written call results: %v", keysOf(calls)), p.Pos(fn.Pos()))
 		// recursion: a written value is the direct result of hashing (a) the module resolved from BlockFilter.Module, (b) each element of AncestorsOf(module.Name)
 		hm, hM := p.FuncObj(pkgMani, "ModuleHashes.hashModule"), p.FuncObj(pkgMani, "ModuleHashes.HashModule")
 		bfT := p.Named(pkgPBV1, "Module_BlockFilter")
@@ -510,36 +526,65 @@ func runC06(p *core.Prog, r *core.Report) {
 		// "ordered inputs": for each input, in slice order, the hash receives something that tells WHICH module a map or
 		// store input refers to (its identifier), not only its kind; otherwise two inputs of the same kind can be swapped
 		// — the entrypoint then receives its arguments in the other order — without the identifier changing.
-		iv := p.Func(pkgMani, "inputValue")
-		r.Touch(core.FuncName(iv))
+		// the per-input helpers are found by role: the functions of the package that take a *Module_Input and whose results
+		// hashModule writes (inputName / inputValue today)
+		hmFn := p.Func(pkgMani, "ModuleHashes.hashModule")
+		called := map[*types.Func]bool{}
+		for _, m := range core.Family(hmFn, 1) {
+			core.Instrs(m, func(in ssa.Instruction) {
+				if cl := core.CalleeOf(in); cl != nil {
+					called[cl] = true
+				}
+			})
+		}
+		ivs := c06InputHelpers(p, called)
+		if len(ivs) == 0 {
+			core.Undecide("hashModule: no helper taking a *Module_Input found")
+		}
+		iv := ivs[0]
+		for _, h := range ivs {
+			r.Touch(core.FuncName(h))
+		}
 		for _, kind := range []string{"Module_Input_Map_", "Module_Input_Store_"} {
 			found, constant := false, true
-			core.Instrs(iv, func(in ssa.Instruction) {
-				ta, ok := in.(*ssa.TypeAssert)
-				if !ok || !ta.CommaOk || typeName(ta.AssertedType) != "*"+kind {
-					return
-				}
-				found = true
-				// the return reached on the success edge of this assertion
-				for _, ref := range *ta.Referrers() {
-					ex, ok := ref.(*ssa.Extract)
-					if !ok || ex.Index != 1 {
-						continue
+			for _, iv := range ivs {
+				anyVar, nCase := false, 0
+				core.Instrs(iv, func(in ssa.Instruction) {
+					ta, ok := in.(*ssa.TypeAssert)
+					if !ok || !ta.CommaOk || typeName(ta.AssertedType) != "*"+kind {
+						return
 					}
-					for _, rr := range *ex.Referrers() {
-						ifi, ok := rr.(*ssa.If)
-						if !ok {
+					found = true
+					nCase++
+					// the return reached on the success edge of this assertion: one of its string results is not a constant
+					for _, ref := range *ta.Referrers() {
+						ex, ok := ref.(*ssa.Extract)
+						if !ok || ex.Index != 1 {
 							continue
 						}
-						b := ifi.Block().Succs[0]
-						if rt, ok := b.Instrs[len(b.Instrs)-1].(*ssa.Return); ok {
-							if _, isK := rt.Results[0].(*ssa.Const); !isK {
-								constant = false
+						for _, rr := range *ex.Referrers() {
+							ifi, ok := rr.(*ssa.If)
+							if !ok {
+								continue
+							}
+							b := ifi.Block().Succs[0]
+							if rt, ok := b.Instrs[len(b.Instrs)-1].(*ssa.Return); ok {
+								for _, rv := range core.ReturnValues(rt) {
+									if bt, isB := rv.Type().Underlying().(*types.Basic); !isB || bt.Kind() != types.String {
+										continue
+									}
+									if _, isK := rv.(*ssa.Const); !isK {
+										anyVar = true
+									}
+								}
 							}
 						}
 					}
+				})
+				if nCase > 0 && anyVar {
+					constant = false
 				}
-			})
+			}
 			if !found {
 				core.Undecide("inputValue: no case for %s", kind)
 			}
@@ -829,4 +874,94 @@ func callersInPkg(p *core.Prog, rel string, obj *types.Func) []*ssa.Function {
 	}
 	sort.Slice(out, func(i, j int) bool { return out[i].String() < out[j].String() })
 	return out
+}
+
+// c06InputHelpers: among the given callees, the functions of package manifest that take a *Module_Input (the helpers
+// that turn one input into what is hashed for it).
+func c06InputHelpers(p *core.Prog, callees map[*types.Func]bool) []*ssa.Function {
+	var out []*ssa.Function
+	for cc := range callees {
+		if cc.Pkg() == nil || !strings.HasSuffix(cc.Pkg().Path(), "/"+pkgMani) {
+			continue
+		}
+		sig := cc.Type().(*types.Signature)
+		takes := false
+		for i := 0; i < sig.Params().Len(); i++ {
+			if pt, ok := sig.Params().At(i).Type().(*types.Pointer); ok {
+				if n, ok := pt.Elem().(*types.Named); ok && n.Obj().Name() == "Module_Input" {
+					takes = true
+				}
+			}
+		}
+		if !takes {
+			continue
+		}
+		if fn := p.SSA.FuncValue(cc); fn != nil && fn.Blocks != nil {
+			out = append(out, fn)
+		}
+	}
+	sort.Slice(out, func(i, j int) bool { return out[i].String() < out[j].String() })
+	return out
+}
+
+// c06TransparentCarrier: cc is an unexported function of package manifest that cannot map two different inputs to the
+// same bytes by itself: it calls nothing but getters, the frozen carriers, error constructors and (to the given depth)
+// other such helpers; it does no string arithmetic (no concatenation, no slicing); and the string constants it returns
+// are pairwise distinct.  Its SSA function is returned, nil otherwise.
+func c06TransparentCarrier(p *core.Prog, cc *types.Func, depth int) *ssa.Function {
+	if cc.Pkg() == nil || !strings.HasSuffix(cc.Pkg().Path(), "/"+pkgMani) || cc.Exported() {
+		return nil
+	}
+	for _, n := range c06Carriers {
+		if core.ObjName(cc) == n {
+			return nil // already a carrier
+		}
+	}
+	fn := p.SSA.FuncValue(cc)
+	if fn == nil || fn.Blocks == nil {
+		return nil
+	}
+	carriers := map[string]bool{}
+	for _, n := range c06Carriers {
+		carriers[n] = true
+	}
+	ok := true
+	consts := map[string]int{}
+	core.Instrs(fn, func(in ssa.Instruction) {
+		switch x := in.(type) {
+		case ssa.CallInstruction:
+			cl := core.CalleeOf(in)
+			if cl == nil {
+				if _, isB := x.Common().Value.(*ssa.Builtin); !isB {
+					ok = false
+				}
+				return
+			}
+			n := core.ObjName(cl)
+			switch {
+			case carriers[n], strings.Contains(n, ".Get"), n == "fmt.Errorf", n == "errors.New":
+			case depth > 0 && c06TransparentCarrier(p, cl, depth-1) != nil:
+			default:
+				ok = false
+			}
+		case *ssa.BinOp:
+			if bt, isB := x.Type().Underlying().(*types.Basic); isB && bt.Kind() == types.String && x.Op == token.ADD {
+				ok = false
+			}
+		case *ssa.Slice:
+			if bt, isB := x.X.Type().Underlying().(*types.Basic); isB && bt.Kind() == types.String {
+				ok = false // a substring
+			}
+		case *ssa.Return:
+			for _, rv := range core.ReturnValues(x) {
+				if k, isK := rv.(*ssa.Const); isK && k.Value != nil && k.Value.Kind() == constant.String && constant.StringVal(k.Value) != "" {
+					consts[constant.StringVal(k.Value)]++
+				}
+			}
+		}
+	})
+	if !ok {
+		return nil
+	}
+	return fn
 }
